@@ -521,6 +521,14 @@ class Evaluator:
                 raise Unsupported('isinstance against a symbolic class')
             if fn is isinstance:
                 if isinstance(o, VObj):
+                    from . import symproxy
+                    ks = C.v if isinstance(C.v, tuple) else (C.v,)
+                    if any(symproxy.is_deep(k) for k in ks):
+                        # a forward-reference proxy whose answer depends on the object's contents:
+                        # its real __instancecheck__ is executed symbolically
+                        alts = [symproxy.instancecheck_formula(self.c, k, o.t, pc) if symproxy.is_deep(k)
+                                else U.isinstance(o.t, k) for k in ks]
+                        return VBool(z3.Or(alts))
                     try:
                         return VBool(U.isinstance(o.t, C.v))
                     except IsinstanceRaises as e:
